@@ -227,6 +227,35 @@ def _work(job):
     except Exception as e:  # noqa: BLE001
         res["fails"].append(["instrument:" + type(e).__name__, str(e)[:200], None])
         return res
+    if n % 2 == 0:
+        # module A (this program) then, after reset(), a different module B with the same shape of code objects but a
+        # branch-less f: the registries must describe B only
+        other = src[:src.index("def f(")] + "def f(a, b, s, l, o):\n    x = a\n    return x\n"
+        try:
+            sp2, _code2 = I.reinstrument_after_reset(src, other, path, ("BRANCH",))
+        except Exception as e:  # noqa: BLE001
+            res["fails"].append(["reload:instrument:" + type(e).__name__, str(e)[:200], None])
+        else:
+            from pynguin.ga import coveragegoals as bg
+
+            with_pred = {m.code_object_id for m in sp2.existing_predicates.values()}
+            want = sorted(c for c in sp2.existing_code_objects if c not in with_pred)
+            got = sorted(sp2.branch_less_code_objects)
+            pool = sorted(g.code_object_id for g in bg.BranchGoalPool(sp2).branchless_code_object_goals)
+            if got != want or pool != want:
+                res["fails"].append(["reload:branchless-code-object-hidden",
+                                     f"after reset() + instrumenting a different module: code objects without predicate {want}, "
+                                     f"branch_less_code_objects {got}, BranchlessCodeObjectGoals {pool}", None])
+            if sorted(sp2.existing_predicates) != list(range(len(sp2.existing_predicates))):
+                res["fails"].append(["reload:predicate-ids-not-dense", f"{sorted(sp2.existing_predicates)[:8]}", None])
+        with open(path, "w") as f:
+            f.write(src)
+        I.reset_records()
+        try:
+            sp, code, _pool = I.instrument(src, path, ("BRANCH",), seeding=False)
+        except Exception as e:  # noqa: BLE001
+            res["fails"].append(["instrument:" + type(e).__name__, str(e)[:200], None])
+            return res
     ex = I.extract_blocks(sp, plain, code)
     key2co, off2blk = {}, {}
     in_pids = set()
